@@ -3500,3 +3500,210 @@ func ruleBusyFlagLoweredAfterRun(r *Run, rule string) {
 		}
 	}
 }
+
+// ruleDirtyFlagLifeCycle (R05.18): a per-line dirty table (a map from line address to bool in
+// the coherence layer). (a) Some function raises the flag of its parameter address, and it is
+// called by a function that writes bytes into a cache (the line becomes dirty when it is
+// written). (b) Where the flag decides what happens to a displaced line, the branch taken
+// when the flag is SET sends the request whose handler writes the line to memory, and the other
+// branch sends one whose handler does not.
+func ruleDirtyFlagLifeCycle(r *Run, rule string) {
+	w := r.W
+	for _, v := range variants(w) {
+		if v.pkg == nil || !v.pipelined() {
+			continue
+		}
+		info := v.info
+		// dirty tables: fields of type map[AlignedAddress]bool
+		isDirtyMap := func(e ast.Expr) *types.Var {
+			sel, ok := ast.Unparen(e).(*ast.SelectorExpr)
+			if !ok {
+				return nil
+			}
+			s := info.Selections[sel]
+			if s == nil || s.Kind() != types.FieldVal {
+				return nil
+			}
+			mt, ok := s.Obj().Type().Underlying().(*types.Map)
+			if !ok || typeName(mt.Elem()) != "bool" || !strings.Contains(typeName(mt.Key()), "AlignedAddress") {
+				return nil
+			}
+			return s.Obj().(*types.Var)
+		}
+		tables := map[*types.Var]bool{}
+		raisers := map[*types.Var][]*types.Func{}
+		type decision struct {
+			fd  *ast.FuncDecl
+			is  *ast.IfStmt
+			t   *types.Var
+			neg bool
+		}
+		var decisions []decision
+		for _, f := range v.pkg.Syntax {
+			for _, d := range f.Decls {
+				fd, ok := d.(*ast.FuncDecl)
+				if !ok || fd.Body == nil {
+					continue
+				}
+				fn, _ := info.Defs[fd.Name].(*types.Func)
+				ast.Inspect(fd.Body, func(m ast.Node) bool {
+					switch x := m.(type) {
+					case *ast.AssignStmt:
+						if len(x.Lhs) == 1 && len(x.Rhs) == 1 {
+							if ix, ok := ast.Unparen(x.Lhs[0]).(*ast.IndexExpr); ok {
+								if t := isDirtyMap(ix.X); t != nil {
+									tables[t] = true
+									if tv := info.Types[x.Rhs[0]]; tv.Value != nil && tv.Value.String() == "true" {
+										// the key is a parameter of the function
+										if id, ok := ast.Unparen(ix.Index).(*ast.Ident); ok && isParamOf(info, fd, id) {
+											raisers[t] = append(raisers[t], fn)
+										}
+									}
+								}
+							}
+						}
+					case *ast.IfStmt:
+						c := ast.Unparen(x.Cond)
+						neg := false
+						if u, ok := c.(*ast.UnaryExpr); ok && u.Op == token.NOT {
+							c, neg = ast.Unparen(u.X), true
+						}
+						if ix, ok := c.(*ast.IndexExpr); ok {
+							if t := isDirtyMap(ix.X); t != nil {
+								tables[t] = true
+								decisions = append(decisions, decision{fd, x, t, neg})
+							}
+						}
+					}
+					return true
+				})
+			}
+		}
+		var ts []*types.Var
+		for t := range tables {
+			ts = append(ts, t)
+		}
+		sort.Slice(ts, func(i, j int) bool { return ts[i].Name() < ts[j].Name() })
+		for _, t := range ts {
+			// (a)
+			raisedOnWrite := false
+			for _, f := range v.pkg.Syntax {
+				for _, d := range f.Decls {
+					fd, ok := d.(*ast.FuncDecl)
+					if !ok || fd.Body == nil {
+						continue
+					}
+					callsRaiser, writesCache := false, false
+					ast.Inspect(fd.Body, func(m ast.Node) bool {
+						if c, ok := m.(*ast.CallExpr); ok {
+							if fn, ok := typeutil.Callee(info, c).(*types.Func); ok {
+								for _, rf := range raisers[t] {
+									if fn == rf {
+										callsRaiser = true
+									}
+								}
+								if sig, ok := fn.Type().(*types.Signature); ok && sig.Recv() != nil && isCompType(sig.Recv().Type(), "LRUCache") && fn.Name() == "Write" {
+									writesCache = true
+								}
+							}
+						}
+						return true
+					})
+					if callsRaiser && writesCache {
+						raisedOnWrite = true
+					}
+				}
+			}
+			r.check(raisedOnWrite, rule, fmt.Sprintf("%s:dirty(%s):raised-on-write", v.rel, t.Name()), t.Pos(), "the dirty flag of a line is raised (flag[addr] = true) by the function that writes bytes into the cached line")
+		}
+		// (b)
+		writesMemory := func(n ast.Node) bool {
+			return w.reaches(info, n, func(fn *types.Func) bool {
+				fd, pk := w.FuncDecl(fn)
+				if fd == nil || fd.Body == nil {
+					return false
+				}
+				found := false
+				ast.Inspect(fd.Body, func(k ast.Node) bool {
+					if as, ok := k.(*ast.AssignStmt); ok {
+						for _, l := range as.Lhs {
+							if ix, ok := ast.Unparen(l).(*ast.IndexExpr); ok && ctxFieldWritten(pk.TypesInfo, ix.X) == "Memory" {
+								found = true
+							}
+						}
+					}
+					return true
+				})
+				return found
+			})
+		}
+		constOfCall := func(n ast.Node) (types.Object, bool) {
+			var out types.Object
+			ast.Inspect(n, func(k ast.Node) bool {
+				if c, ok := k.(*ast.CallExpr); ok {
+					for _, a := range c.Args {
+						if id, ok := ast.Unparen(a).(*ast.Ident); ok {
+							if co, ok := info.Uses[id].(*types.Const); ok && co.Pkg() == v.pkg.Types {
+								out = co
+							}
+						}
+					}
+				}
+				return true
+			})
+			return out, out != nil
+		}
+		handlerWrites := func(c types.Object) (bool, bool) {
+			found, writes := false, false
+			for _, f := range v.pkg.Syntax {
+				ast.Inspect(f, func(k ast.Node) bool {
+					cc, ok := k.(*ast.CaseClause)
+					if !ok {
+						return true
+					}
+					for _, e := range cc.List {
+						if id, ok := ast.Unparen(e).(*ast.Ident); ok && info.Uses[id] == c {
+							found = true
+							for _, st := range cc.Body {
+								if writesMemory(st) {
+									writes = true
+								}
+							}
+						}
+					}
+					return true
+				})
+			}
+			return found, writes
+		}
+		for i, dc := range decisions {
+			thenC, ok1 := constOfCall(dc.is.Body)
+			// the other side: else branch, or the statements after the if in the function
+			var elseC types.Object
+			ok2 := false
+			if dc.is.Else != nil {
+				elseC, ok2 = constOfCall(dc.is.Else)
+			} else {
+				for _, st := range dc.fd.Body.List {
+					if st.Pos() > dc.is.End() {
+						if c, ok := constOfCall(st); ok {
+							elseC, ok2 = c, true
+							break
+						}
+					}
+				}
+			}
+			key := fmt.Sprintf("%s.%s:dirty(%s):decision#%d", v.rel, declName(dc.fd), dc.t.Name(), i+1)
+			if !ok1 || !ok2 {
+				r.undecided(rule, key, dc.is.Pos(), "the requests sent on the two sides of the dirty test were not recognised")
+				continue
+			}
+			if dc.neg {
+				thenC, elseC = elseC, thenC // the side taken when the flag is SET is the other one
+			}
+			f1, w1 := handlerWrites(thenC)
+			f2, w2 := handlerWrites(elseC)
+			r.check(f1 && f2 && w1 && !w2, rule, key, dc.is.Pos(), "the line is written to memory when its dirty flag is SET (request %s: handler writes memory %v) and dropped when it is not (request %s: handler writes memory %v)", thenC.Name(), w1, elseC.Name(), w2)
+		}
+	}
+}
